@@ -219,6 +219,95 @@ where
     }
 }
 
+pin_project_lite::pin_project! {
+    /// Decodes the chunks of a text stream as they arrive from the transport.
+    ///
+    /// A transport is free to cut the byte stream anywhere, including in the middle of
+    /// a multi-byte character: the bytes of an incomplete trailing character are kept
+    /// and prepended to the next chunk instead of being reported as invalid UTF-8.
+    struct TextChunks<S, E> {
+        #[pin]
+        chunks: S,
+        pending: Vec<u8>,
+        done: bool,
+        error: std::marker::PhantomData<fn() -> E>,
+    }
+}
+
+fn decode_text_chunks<S, E>(chunks: S) -> TextChunks<S, E> {
+    TextChunks {
+        chunks,
+        pending: Vec::new(),
+        done: false,
+        error: std::marker::PhantomData,
+    }
+}
+
+impl<S, E> Stream for TextChunks<S, E>
+where
+    S: Stream<Item = Result<Bytes, Bytes>>,
+    E: FromServerFnError,
+{
+    type Item = Result<String, E>;
+
+    fn poll_next(
+        self: Pin<&mut Self>,
+        cx: &mut std::task::Context<'_>,
+    ) -> std::task::Poll<Option<Self::Item>> {
+        use std::task::Poll;
+        let invalid = |e: std::str::Utf8Error| {
+            E::from_server_fn_error(ServerFnErrorErr::Deserialization(
+                e.to_string(),
+            ))
+        };
+        let text = |bytes: Vec<u8>| {
+            String::from_utf8(bytes).expect("validated as UTF-8 just before")
+        };
+        let mut this = self.project();
+        loop {
+            if *this.done {
+                return Poll::Ready(None);
+            }
+            match std::task::ready!(this.chunks.as_mut().poll_next(cx)) {
+                Some(Ok(bytes)) => {
+                    let carried = !this.pending.is_empty();
+                    this.pending.extend_from_slice(&bytes);
+                    match std::str::from_utf8(this.pending) {
+                        Ok(_) => {
+                            let all = std::mem::take(this.pending);
+                            return Poll::Ready(Some(Ok(text(all))));
+                        }
+                        // the chunk ends inside a character: keep its first bytes
+                        Err(e) if e.error_len().is_none() => {
+                            let rest = this.pending.split_off(e.valid_up_to());
+                            let head = std::mem::replace(this.pending, rest);
+                            if !head.is_empty() || (bytes.is_empty() && !carried)
+                            {
+                                return Poll::Ready(Some(Ok(text(head))));
+                            }
+                        }
+                        Err(e) => {
+                            this.pending.clear();
+                            return Poll::Ready(Some(Err(invalid(e))));
+                        }
+                    }
+                }
+                Some(Err(bytes)) => {
+                    return Poll::Ready(Some(Err(E::de(bytes))))
+                }
+                None => {
+                    *this.done = true;
+                    // end of the stream inside a character
+                    let rest = std::mem::take(this.pending);
+                    if let Err(e) = std::str::from_utf8(&rest) {
+                        return Poll::Ready(Some(Err(invalid(e))));
+                    }
+                }
+            }
+        }
+    }
+}
+
 impl<E, T, Request> FromReq<StreamingText, Request, E> for T
 where
     Request: Req<E> + Send + 'static,
@@ -227,17 +316,7 @@ where
 {
     async fn from_req(req: Request) -> Result<Self, E> {
         let data = req.try_into_stream()?;
-        let s = TextStream::new(data.map(|chunk| match chunk {
-            Ok(bytes) => {
-                let de = String::from_utf8(bytes.to_vec()).map_err(|e| {
-                    E::from_server_fn_error(ServerFnErrorErr::Deserialization(
-                        e.to_string(),
-                    ))
-                })?;
-                Ok(de)
-            }
-            Err(bytes) => Err(E::de(bytes)),
-        }));
+        let s = TextStream::new(decode_text_chunks(data));
         Ok(s.into())
     }
 }
@@ -263,16 +342,6 @@ where
 {
     async fn from_res(res: Response) -> Result<Self, E> {
         let stream = res.try_into_stream()?;
-        Ok(TextStream(Box::pin(stream.map(|chunk| match chunk {
-            Ok(bytes) => {
-                let de = String::from_utf8(bytes.into()).map_err(|e| {
-                    E::from_server_fn_error(ServerFnErrorErr::Deserialization(
-                        e.to_string(),
-                    ))
-                })?;
-                Ok(de)
-            }
-            Err(bytes) => Err(E::de(bytes)),
-        }))))
+        Ok(TextStream(Box::pin(decode_text_chunks(stream))))
     }
 }
